@@ -393,6 +393,10 @@ class Interp:
             return v.truth()
         if isinstance(v, SInt):
             return not symstr.compare_int(v, 'Eq', 0)
+        if isinstance(v, tuple) and v and v[0] == 'linesof':
+            return v[1].truth()          # no lines exactly for the empty string
+        if isinstance(v, tuple) and v and v[0] == 'linecount':
+            return v[1].truth()
         if v is None or v is False or v == 0:
             return False
         if isinstance(v, Ref):
@@ -489,7 +493,7 @@ class Interp:
             l = self.ev(e.left, env, cls)
             r = self.ev(e.comparators[0], env, cls)
             op = e.ops[0]
-            if isinstance(l, (SStr, SInt)) or isinstance(r, (SStr, SInt)):
+            if isinstance(l, (SStr, SInt)) or isinstance(r, (SStr, SInt)) or any(isinstance(x, tuple) and x and x[0] == 'linecount' for x in (l, r)):
                 return self.sym_compare(l, op, r, e)
             if isinstance(op, (ast.Is, ast.IsNot)):
                 same = (l is None and r is None) or (isinstance(l, Ref) and isinstance(r, Ref) and l == r) or (l is r)
@@ -728,6 +732,8 @@ class Interp:
                 return getattr(base0, fn.attr)(*a2)
         if isinstance(fn, ast.Name) and fn.id == 'enumerate' and len(args) == 1 and isinstance(args[0], (str, PyIter)):
             return [(i, v) for i, v in enumerate(self.seq(args[0]))]
+        if isinstance(fn, ast.Name) and fn.id == 'len' and len(args) == 1 and isinstance(args[0], tuple) and args[0] and args[0][0] == 'linesof':
+            return ('linecount', args[0][1])
         if isinstance(fn, ast.Name) and fn.id == 'len' and len(args) == 1 and isinstance(args[0], (set, frozenset, dict, str)):
             return len(args[0])
         if isinstance(fn, ast.Name) and fn.id == 'sorted' and len(args) == 1 and not kwargs:
@@ -1001,6 +1007,12 @@ class Interp:
     # -- symbolic strings -------------------------------------------------------------------------------
     def sym_compare(self, l, op, r, e):
         name = type(op).__name__
+        if isinstance(r, tuple) and r and r[0] == 'linecount' and isinstance(l, int):
+            l, r = r, l
+            name = {'Lt': 'Gt', 'LtE': 'GtE', 'Gt': 'Lt', 'GtE': 'LtE'}.get(name, name)
+        if isinstance(l, tuple) and l and l[0] == 'linecount' and isinstance(r, int) and not isinstance(r, bool) \
+                and name in ('Eq', 'NotEq', 'Lt', 'LtE', 'Gt', 'GtE'):
+            return l[1]._decide(symstr.line_count_lang(name, r), 'len(splitlines()) %s %d' % (name, r))
         if isinstance(l, SInt) or isinstance(r, SInt):
             if name in ('Eq', 'NotEq', 'Lt', 'LtE', 'Gt', 'GtE') and isinstance(l, (SInt, int)) and isinstance(r, (SInt, int)):
                 return symstr.compare_int(l, name, r)
@@ -1046,7 +1058,15 @@ class Interp:
                 return h.new_list(getattr(s, meth)(sep, mx))
             if meth == 'splitlines':
                 keep = bool(args[0]) if args else bool(kwargs.get('keepends', False))
-                return h.new_list(s.splitlines(keep))
+                try:
+                    return h.new_list(s.splitlines(keep))
+                except symstr.Undecided as u:
+                    if u.atom is not None and u.split is not None and not u.atom.lang.intersect(u.split).is_empty() \
+                            and not u.atom.lang.minus(u.split).is_empty():
+                        raise         # the case can be refined on this atom
+                    # line boundaries other than "\n" may occur: the list is not built; its length / emptiness are
+                    # decided on the language of the string
+                    return ('linesof', s)
             if meth in ('partition', 'rpartition'):
                 return getattr(s, meth)(args[0])
             if meth in ('find', 'index', 'count'):
